@@ -39,6 +39,15 @@ pub fn verify_stark_proof<
     verifier_circuit_fri_params: Option<FriParams>,
 ) -> Result<()> {
     ensure!(proof_with_pis.public_inputs.len() == S::PUBLIC_INPUTS);
+    // Deriving the challenges already indexes into the proof: validate its shape first.
+    validate_proof_shape(
+        &stark,
+        &proof_with_pis.proof,
+        &proof_with_pis.public_inputs,
+        config,
+        0,
+        0,
+    )?;
     let mut challenger = Challenger::<F, C::Hasher>::new();
 
     let challenges = proof_with_pis.get_challenges(
@@ -230,6 +239,19 @@ where
     C: GenericConfig<D, F = F>,
     S: Stark<F, D>,
 {
+    // `recover_degree_bits` reads the first Merkle path of the first query round.
+    let first_path_len = proof
+        .opening_proof
+        .query_round_proofs
+        .first()
+        .and_then(|round| round.initial_trees_proof.evals_proofs.first())
+        .map(|(_, merkle_proof)| merkle_proof.siblings.len());
+    ensure!(
+        first_path_len.is_some_and(|len| {
+            config.fri_config.cap_height + len >= config.fri_config.rate_bits
+        }),
+        "The opening proof does not determine a trace length."
+    );
     let degree_bits = proof.recover_degree_bits(config);
 
     let StarkProof {
@@ -256,14 +278,14 @@ where
     let fri_params = config.fri_params(degree_bits);
     let cap_height = fri_params.config.cap_height;
 
-    ensure!(trace_cap.height() == cap_height);
+    ensure!(trace_cap.len() == 1 << cap_height);
     // The quotient commitment must be present exactly when the STARK has quotient polynomials:
     // without it, `zeta` would be drawn before the prover is bound to a quotient and the quotient
     // openings would not be authenticated by any Merkle cap.
     ensure!(quotient_polys_cap.is_some() == (stark.num_quotient_polys(config) > 0));
     ensure!(
         quotient_polys_cap.is_none()
-            || quotient_polys_cap.as_ref().map(|q| q.height()) == Some(cap_height)
+            || quotient_polys_cap.as_ref().map(|q| q.len()) == Some(1 << cap_height)
     );
 
     ensure!(local_values.len() == S::COLUMNS);
@@ -323,7 +345,7 @@ where
             ensure!(ctl_zs_first.len() == num_ctl_zs);
         }
 
-        ensure!(auxiliary_polys_cap.height() == cap_height);
+        ensure!(auxiliary_polys_cap.len() == 1 << cap_height);
         ensure!(auxiliary_polys.len() == num_auxiliary);
         ensure!(auxiliary_polys_next.len() == num_auxiliary);
     } else {
@@ -331,6 +353,7 @@ where
         ensure!(auxiliary_polys.is_none());
         ensure!(auxiliary_polys_next.is_none());
     }
+    ensure!(ctl_zs_first.is_none() || stark.requires_ctls());
 
     Ok(())
 }
